@@ -232,6 +232,10 @@ def abstract_events(events, life=None):
                 return 0 if e.get('role') == 'parent' else 1
         return 1
     pids = sorted(by_pid, key=lambda p: (role(p), first[p]))
+    # what a cut report lost, per process: only its final line end, or data
+    lost = {}
+    for pid in pids:
+        lost[pid] = ''.join(e.get('lost', '?') for e in by_pid[pid] if e['e'] == 'ReportCut')
     out = []
     for pid in pids:
         evs = sorted(by_pid[pid], key=lambda e: e['seq'])
@@ -253,6 +257,11 @@ def abstract_events(events, life=None):
             elif k == 'SP':
                 rec['l'] = layer_abstract_name(e.get('l', ''))
                 rec['s'] = e.get('s', '')
+            elif k == 'CUT':
+                if any(x['e'] == 'CUT' for x in out[-8:]) and rec['e'] == 'CUT' and \
+                        out and out[-1]['e'] == 'CUT':
+                    continue            # one CUT event per process
+                rec['s'] = 'eol' if lost[pid] == '\n' else 'data'
             elif k == 'T':
                 rec['t'] = e['t']
                 rec['s'] = e['ph']
